@@ -1,18 +1,19 @@
-"""C04 — Applying an ACTIONX equals inlining its keywords; earlier steps are immutable.  (proof, partial)"""
+"""C04 — Applying an ACTIONX equals inlining its keywords; earlier steps are immutable.  (proof)"""
 import json
 from .. import vlib
 
 TRUSTED = [
     "Lean 4.33 kernel; axioms per theorem under coverage.axioms (subset of propext, Classical.choice, Quot.sound)",
-    "the C03 core semantics (Model/SchedCore, byte-for-byte correspondence there) and Model/SchedAction",
-    "harness/schedule.cpp (acorr: real Schedule::applyAction incl. sequences vs model; aprop: real applyAction vs real Schedule of the inlined deck) + differ",
-    "partial: apply_eq_inline is proved under 'end_report shut nothing at step n'; the sequence clause is proved for immutability of the past only; '?' is resolved once per application in the model (handler-time in the C++); action bodies over WELOPEN/WCONPROD/WCONINJE/WELTARG/WEFAC/GCONPROD/GRUPTREE/COMPDAT only",
-    "modelled, not verified: PYACTION, WELPI (simulator-supplied PI; see finding actionx-welpi-rescales-past), SimulatorUpdate flags other than affected wells, action_wgnames visibility of later ACTIONX blocks after a resize",
+    "the C03 core semantics (Model/SchedCore, 23 record operations incl. the deferred WPIMULT and end_report; byte-for-byte correspondence there) and Model/SchedAction",
+    "harness/schedule.cpp (acorr: real Schedule::applyAction incl. sequences vs model; aprop: real applyAction vs real Schedule of the inlined deck, generated and shipped decks) + differ; Model/SchedIO.lean",
+    "states are compared with Sim (equal property channel, equal connection channel, equal status of every well, marker ignored); sim_observation proves that Sim states with equal markers print the same observation record",
+    "scope: bodies over the modelled keyword set without COMPDAT / WELOPEN-on-connections / WPIMULT (the property's own exception; COMPLUMP is covered); non-decreasing steps; '?' is resolved once per application in the model (handler-time in the C++; differs only for wells the body itself creates)",
+    "modelled, not verified: PYACTION, WELPI/WTMULT and other unmodelled body keywords (property mode only), SimulatorUpdate flags other than affected wells, action_wgnames visibility of later ACTIONX blocks after a resize",
 ]
 
 
 def run(ctx):
-    ctx.assumptions += ["non-restarted runs", "action bodies over the core keyword set; matching wells exist at the action step",
+    ctx.assumptions += ["non-restarted runs", "action bodies over the modelled keyword set; matching wells exist at the action step",
                         "inlined deck = substituted body inserted before the time keyword that closes block n (steps inside a multi-record DATES/TSTEP are skipped in property mode)"]
     ctx.stage_translate(["handlers"])
     if not ctx.stage_build_opm():
